@@ -77,7 +77,8 @@ def check(repo: Repo, rep: Report) -> None:
         if g.parent is not outer_next:
             continue
         gt = TC.guards_text(s)
-        ok = any(_eq_guard(e, p, latest, idv) for e, p in s.ctx.guards) if idv else False
+        from ..rules import expanded_guards as _xg
+        ok = any(_eq_guard(e, p, latest, idv) for e, p in _xg(g, s.ctx)) if idv else False
         rep.ob("W1-stale-guard", g, f"inner {g.name}: {short(s.node)} under {gt}", ok,
                f"an inner sequence's {k} reaches the subscriber without `latest == {idv}` dominating it: a superseded inner "
                f"still emits / terminates the output")
@@ -91,7 +92,8 @@ def check(repo: Repo, rep: Report) -> None:
                 tgt = n_.targets[0] if isinstance(n_, ast.Assign) else n_.target
                 cn = cell_name(tgt)
                 if cn and g.owner(cn) is root:
-                    ok = any(_eq_guard(e, p, latest, idv) for e, p in s.ctx.guards) if idv else False
+                    from ..rules import expanded_guards as _xg2
+                    ok = any(_eq_guard(e, p, latest, idv) for e, p in _xg2(g, s.ctx)) if idv else False
                     rep.ob("W1-stale-guard", g, f"inner {g.name}: `{short(n_, 40)}` under the stale guard", ok,
                            f"an inner sequence's {g.name} updates the operator's state (`{cn}`) without `latest == {idv}` dominating "
                            f"it: a superseded inner that terminates late resets the join state of the current one (the output "
